@@ -346,7 +346,7 @@ class _G:
                 if self.profile == "codegen" and step["op"] not in (
                         "sizeph", "add", "mul", "sum", "scalar", "neg", "sin"):
                     return None
-            elif v.size > 64 or v.ndim > 3:
+            elif v.size > 96 or v.ndim > 3:
                 return None
             v.dtype, v.axes, v.tags, hash(v)
         except Exception:  # noqa: BLE001
@@ -483,7 +483,15 @@ class _G:
             b = self.pick(lambda v: v.ndim == nd)
             if b is None:
                 return None
-            args = [a, b] if rng.random() < 0.8 else [a, b, a]
+            q = rng.random()
+            if q < 0.75:
+                args = [a, b]
+            elif q < 0.92:
+                args = [a, b, a]
+            else:
+                # very many operands (binding names beyond _in9 sort
+                # differently as strings than as numbers)
+                args = [a, b] * 6
             return self.try_step({"op": k, "args": args,
                                   "p": {"axis": rng.randrange(nd + 1)}})
         if k == "roll":
